@@ -200,7 +200,12 @@ def snapshot(w, relax_links=False):
         rec['ext'].sort()
         for gi, g in enumerate(groups):
             st, m = W.mask_of(d, g.subset_state)
-            if st != 'incompatible' and nlinks > 1 and not all(any(a is c for c in d.components) for a in attrs_of(g.subset_state, [])):
+            if any(getattr(a, 'parent', None) is not None and not any(a.parent is x for x in dc) for a in attrs_of(g.subset_state, [])):
+                # the selection is defined on attributes of a dataset that has left the collection: whether a dataset still in
+                # it can evaluate it depends on what the departed dataset (not part of the session) still carries - links that
+                # were dropped when it left survive on it as stale derived components until it is re-appended
+                rec['masks'].append([gi, 'defined-outside-the-collection'])
+            elif st != 'incompatible' and nlinks > 1 and not all(any(a is c for c in d.components) for a in attrs_of(g.subset_state, [])):
                 # the mask depends on linked values whose derivation chain is not unique (see 'ext')
                 rec['masks'].append([gi, 'evaluable'])
             else:
@@ -253,6 +258,11 @@ def first_diff(a, b):
             if ga[key] != gb[key]:
                 return 'group-' + key, 'group %d %s: %r vs %r' % (gi, key, ga[key], gb[key])
     for da, db in zip(a['data'], b['data']):
+        # masks of selections defined on a dataset outside the collection (on either side) are not compared (see snapshot)
+        wild = set(m[0] for m in da['masks'] + db['masks'] if m[1] == 'defined-outside-the-collection')
+        if wild:
+            da = dict(da, masks=[m for m in da['masks'] if m[0] not in wild])
+            db = dict(db, masks=[m for m in db['masks'] if m[0] not in wild])
         for key in ('label', 'shape', 'coords', 'comps', 'ext', 'masks', 'style', 'meta'):
             if da[key] != db[key]:
                 xa = [x for x in da[key] if x not in db[key]] if isinstance(da[key], list) else da[key]
